@@ -129,13 +129,13 @@ func (r *PanicRevHnd) RBoom(ctx context.Context, payload string) (int, error) {
 }
 
 type PanicCli struct {
-	Boom     func(ctx context.Context, payload string) (int, error)
+	Boom            func(ctx context.Context, payload string) (int, error)
 	BoomAfterCancel func(ctx context.Context, payload string) (int, error)
-	BoomNote func(ctx context.Context, payload string) error `notify:"true"`
-	BoomSub  func(ctx context.Context, payload string) (<-chan int, error)
-	Echo     func(ctx context.Context, tok int) (int, error)
-	Sub      func(ctx context.Context, id int, n int) (<-chan int, error)
-	CallRev  func(ctx context.Context, payload string) (string, error)
+	BoomNote        func(ctx context.Context, payload string) error `notify:"true"`
+	BoomSub         func(ctx context.Context, payload string) (<-chan int, error)
+	Echo            func(ctx context.Context, tok int) (int, error)
+	Sub             func(ctx context.Context, id int, n int) (<-chan int, error)
+	CallRev         func(ctx context.Context, payload string) (string, error)
 }
 
 // S-PANIC (DESIGN §3 C13).
